@@ -100,12 +100,18 @@ def expand_control(prog: list, defines: dict | None = None) -> tuple[list, dict]
 
 # =============================================================================== C09
 def _defined_names(stmts: list) -> set[str]:
+    """Names defined in the scope of `stmts` itself (.if branches and included files open no scope).
+    Names of nested scopes cannot capture an argument and keep their spelling."""
     names: set[str] = set()
-    for st, _, _ in walk(stmts):
+    for st in stmts:
         if st["k"] in ("label", "assign", "sym"):
             names.add(st["n"])
-        elif st["k"] == "for":
-            names.add(st["v"])
+        elif st["k"] == "if":
+            names |= _defined_names(st["t"])
+            if st.get("e") is not None:
+                names |= _defined_names(st["e"])
+        elif st["k"] == "include":
+            names |= _defined_names(st["b"])
     return names
 
 
